@@ -319,7 +319,7 @@ def run_case(fn, case_seed, mode):
 
 def run(ctx):
     quick = ctx.tier == 'quick'
-    lib.stage_proof(ctx, PROP_FILES)
+    lib.stage_proof(ctx, PROP_FILES, ['Check/C01.vo'])
 
     # ---- 1. correspondence: integer-valued cases, model evaluated inside Coq
     n_corr = 40 if quick else 400
